@@ -26,9 +26,17 @@ def c01(run, tier):
     cfg = run.cfg("Gen_C01.cfg", {"MaxNodes": Q(tier, 4, 5), "EmitFam": '"C01two"'}, "gen2.cfg")
     rep = run.tlc_gen_replay("MC_C01", cfg, "two-steps", timeout=Q(tier, 400, 2400))
     run.absorb(rep, VALUE_ASPECTS)
+    fixed_two_steps(run, VALUE_ASPECTS)
     # 3. code -> spec: random larger documents and multi-step paths, recorded and judged by Trace_Xsel
     for i in range(Q(tier, 1, 4)):
         run.trace_validate(["-fam", "paths", "-n", str(Q(tier, 2500, 20000)), "-sub", str(i)], "paths%d" % i)
+
+
+def fixed_two_steps(run, aspects):
+    """MC_Fixed: every pair of axes from every node of one larger hand-written document (elements with two attributes and two
+    namespace nodes, nested): the law 'a two-step path is the union over the first step' is checked by TLC, the cases are replayed"""
+    rep = run.tlc_gen_replay("MC_Fixed", run.cfg("MC_Fixed.cfg", {}, "fixed.cfg"), "fixed-two-steps", timeout=600)
+    run.absorb(rep, aspects)
 
 
 def paths_family(run, tier, fam, mc_cfg, order, value, trace_fam, mc_nodes, gen_nodes):
@@ -63,10 +71,12 @@ def c03(run, tier):
     cfg = run.cfg("Gen_C01.cfg", {"MaxNodes": Q(tier, 3, 4), "EmitFam": '"C01two"'}, "gen01two.cfg")
     rep = run.tlc_gen_replay("MC_C01", cfg, "two-steps", timeout=Q(tier, 400, 2400))
     run.absorb(rep, ORDER_ASPECTS)
+    fixed_two_steps(run, ORDER_ASPECTS)
 
 
 def c18(run, tier):
     paths_family(run, tier, "C18", "MC_C18.cfg", False, True, "paths", Q(tier, 5, 6), Q(tier, 5, 6))
+    fixed_two_steps(run, VALUE_ASPECTS)
 
 
 def values_family(run, tier, fam, overrides=None):
